@@ -1,9 +1,93 @@
-"""Concrete replay drivers (filled in per property)."""
+"""Concrete replay on the REAL crate.
+
+A scratch copy of /repo's current working tree is made under /verif/work/replay_src, the module
+replay_src/verif_replay.rs is injected into the base crate of THAT COPY (never into /repo), and
+`cargo test --offline -p ironcalc_base --lib verif_replay` runs the selected drivers.  The build output lives in
+/verif/work/replay_target so that later runs are incremental."""
+import json
+import os
+import re
+import shutil
+import subprocess
+import time
+
+ROOT = os.path.dirname(os.path.dirname(os.path.abspath(__file__)))
+REPO = os.environ.get("VERIF_REPO", "/repo")
+WORK = os.path.join(ROOT, "work")
+
+# which drivers exercise which unit / property
+UNIT_DRIVERS = {
+    "cols": ["cols"], "rows": ["rows"], "delegates": ["cols", "rows"], "colcodec": ["colcodec"], "dates": ["dates"],
+    "errnames": ["errnames"], "refshift": ["refshift"], "refarms": ["refshift"], "strenv": ["refshift"], "dispsites": ["refshift"],
+    "colshift": ["refshift"], "finite": ["finite"], "atomic": ["atomic"], "modelatomic": ["atomic"], "hist": ["history"],
+    "queue": ["history"], "arms": ["history", "select"], "record": ["history"], "select": ["select"],
+}
+PROP_DRIVERS = {
+    "C01": ["history"], "C02": ["history"], "C03": ["history"], "C04": ["atomic"], "C08": ["finite"], "C11": ["colcodec"],
+    "C12": ["refshift"], "C13": ["refshift"], "C14": ["refshift"], "C15": [], "C17": [], "C21": ["dates"], "C22": ["colcodec"],
+    "C23": ["errnames"], "C27": ["cols", "rows"], "C28": ["select"], "C29": ["cols", "rows"], "C33": [], "C34": [],
+}
+
+
+def run_drivers(drivers, timeout=1500):
+    """returns dict driver -> list of failing-input strings, or raises RuntimeError (build problem)"""
+    drivers = sorted(set(drivers))
+    if not drivers:
+        return {}
+    src = os.path.join(WORK, "replay_src")
+    os.makedirs(src, exist_ok=True)
+    r = subprocess.run(["rsync", "-a", "--delete", "--exclude", "target", "--exclude", ".git", "--exclude", "webapp", "--exclude", "bindings",
+                        REPO + "/", src + "/"], capture_output=True, text=True)
+    if r.returncode != 0:
+        raise RuntimeError("rsync failed: " + r.stderr[-300:])
+    shutil.copy(os.path.join(ROOT, "replay_src", "verif_replay.rs"), os.path.join(src, "base", "src", "verif_replay.rs"))
+    lib = os.path.join(src, "base", "src", "lib.rs")
+    s = open(lib).read()
+    if "mod verif_replay;" not in s:
+        open(lib, "w").write(s + "\n#[allow(missing_docs)]\npub mod verif_replay;\n")
+    # the workspace lists members that were not copied: restrict it
+    ct = os.path.join(src, "Cargo.toml")
+    t = open(ct).read()
+    t2 = re.sub(r"members\s*=\s*\[[^\]]*\]", 'members = ["base"]', t, flags=re.S)
+    t2 = re.sub(r"exclude\s*=\s*\[[^\]]*\]", 'exclude = []', t2, flags=re.S)
+    open(ct, "w").write(t2)
+    env = dict(os.environ, CARGO_NET_OFFLINE="true", CARGO_TARGET_DIR=os.path.join(WORK, "replay_target"), VERIF_DRIVERS=",".join(drivers))
+    t0 = time.time()
+    p = subprocess.run(["cargo", "test", "--offline", "-p", "ironcalc_base", "--lib", "verif_replay::t::replay", "--", "--nocapture", "--test-threads", "1"],
+                       cwd=src, env=env, capture_output=True, text=True, timeout=timeout)
+    out = p.stdout + "\n" + p.stderr
+    res = {}
+    for d in drivers:
+        m = re.search(r"REPLAY-DRIVER " + re.escape(d) + r" failing_inputs=(\d+)", out)
+        if not m:
+            if "panicked" in out or "error" in out:
+                tail = out[-600:]
+                raise RuntimeError(f"driver {d} did not report (build error or panic): {tail}")
+            raise RuntimeError(f"driver {d} did not report")
+        res[d] = re.findall(r"REPLAY-FAIL " + re.escape(d) + r" :: (.*)", out)
+        if int(m.group(1)) and not res[d]:
+            res[d] = [f"{m.group(1)} failing inputs (not printed)"]
+    res["_wall_s"] = round(time.time() - t0, 1)
+    return res
 
 
 def find_input(pid, unit, failure):
-    return None
+    ds = UNIT_DRIVERS.get(unit.split(":")[0], []) or PROP_DRIVERS.get(pid, [])
+    if not ds:
+        return None
+    res = run_drivers(ds)
+    found = {d: v for d, v in res.items() if not d.startswith("_") and v}
+    if not found:
+        return None
+    return dict(drivers=ds, failing_inputs=found, note="found by running the unit's replay driver on a scratch copy of the real crate; "
+                "the inputs fail the same postcondition the refuted obligation states")
 
 
 def rerun(pid, record):
-    return dict(still_fails=False, note="no driver")
+    fi = record.get("failing_input") or {}
+    ds = fi.get("drivers") or UNIT_DRIVERS.get(record.get("unit", ""), []) or PROP_DRIVERS.get(pid, [])
+    if not ds:
+        return dict(still_fails=False, note="no replay driver for this unit; re-run ./check to re-decide the obligation")
+    res = run_drivers(ds)
+    found = {d: v for d, v in res.items() if not d.startswith("_") and v}
+    return dict(still_fails=bool(found), failing_inputs=found, drivers=ds)
